@@ -1,5 +1,10 @@
 import Driver.Util
 import Driver.Be
+import Driver.Cli
+import Driver.Rt
+import Driver.Fe
+import Driver.Graph
+import Driver.Decl
 /-!
 Line-protocol driver. One JSON object per input line, one JSON object per output line.
 Every request carries `"op": "<suite>.<name>"`; the suite prefix selects the handler.
@@ -9,6 +14,11 @@ open Lean
 def dispatch (j : Json) : Except String Json := do
   let op ← Driver.jstr j "op"
   if op.startsWith "be." then Driver.Be.handle op j
+  else if op.startsWith "cli." then Driver.Cli.handle op j
+  else if op.startsWith "rt." then Driver.Rt.handle op j
+  else if op.startsWith "fe." then Driver.Fe.handle op j
+  else if op.startsWith "graph." then Driver.Graph.handle op j
+  else if op.startsWith "decl." then Driver.Decl.handle op j
   else throw s!"unknown suite in op {op}"
 
 partial def loop (hin : IO.FS.Stream) (hout : IO.FS.Stream) : IO Unit := do
